@@ -9,7 +9,7 @@ import (
 )
 
 func init() {
-	for _, f := range []func() scen.Spec{scen.Core, scen.Basket, scen.Market, scen.BridgeSpec, scen.Large, scen.Expiry, scen.GovPool, scen.BasketLarge, scen.BasketMarket, scen.SparseGenesis, scen.Mixed} {
+	for _, f := range []func() scen.Spec{scen.Core, scen.Basket, scen.Market, scen.BridgeSpec, scen.Large, scen.Expiry, scen.GovPool, scen.BasketLarge, scen.BasketMarket, scen.SparseGenesis, scen.OddGenesis, scen.Mixed} {
 		regSpec(f)
 	}
 	shared := func() []scen.Spec {
@@ -22,7 +22,7 @@ func init() {
 			budget(tier, 200*time.Second, 15*time.Minute))
 	}
 	Registry["C02"] = func(tier string) int {
-		return engineA("C02", tier, shared(),
+		return engineA("C02", tier, append([]scen.Spec{scen.OddGenesis()}, shared()...),
 			func() []explore.Monitor { return []explore.Monitor{&mon.C02{}} },
 			budget(tier, 200*time.Second, 15*time.Minute))
 	}
@@ -49,7 +49,7 @@ func init() {
 			budget(tier, 150*time.Second, 12*time.Minute))
 	}
 	Registry["C12"] = func(tier string) int {
-		return engineA("C12", tier, []scen.Spec{scen.Expiry(), scen.Market(), scen.Mixed()},
+		return engineA("C12", tier, []scen.Spec{scen.OddGenesis(), scen.Expiry(), scen.Market(), scen.Mixed()},
 			func() []explore.Monitor { return []explore.Monitor{&mon.C12{}} },
 			budget(tier, 150*time.Second, 12*time.Minute))
 	}
